@@ -197,6 +197,11 @@ class Walker:
                         for n in _assigned([s]):
                             env.pop(n, None)
                 # a name that was substituted into other entries and is now re-bound: entries keep the OLD value (text)
+            elif isinstance(s, ast.AugAssign) and self.tracked(s.value):
+                # `x op= f(...)` is `t = f(...); x op= t`: an ordinary call site whose result is consumed at once
+                self.record(s.value, env, path, loop, [])
+                for n in _assigned([s]):
+                    env.pop(n, None)
             elif isinstance(s, (ast.AugAssign, ast.AnnAssign)):
                 self.no_tracked_inside(s, "an augmented / annotated assignment")
                 for n in _assigned([s]):
